@@ -33,6 +33,7 @@ inductive PanicSite
 inductive Out
   | ok | rst (code : Nat) | ga (code : Nat) | close
   | held | skip | queued | blocked | busy | nohandler | idle | gone | sfail
+  | pending                     -- internal: the handler's frames were queued; the scheduler decides what the harness sees
   | panic (site : PanicSite)
   deriving DecidableEq, Repr
 
@@ -116,7 +117,7 @@ def sstep (s : SS) : SEv → SS × Out
   | .rstc => if s.live then (closeReset s, .ok) else (s, .ok)
   | .handlerFrames fs =>
     if s.handler != .running then (s, .nohandler)
-    else ({ s with handler := .finished, q := s.q ++ fs }, .ok)
+    else ({ s with handler := .finished, q := s.q ++ fs }, .pending)
   | .start f =>
     match s.phase with
     | .closedReset => (s, .skip)                             -- "Skip this frame."
@@ -133,7 +134,7 @@ def sstep (s : SS) : SEv → SS × Out
     else match flowAdd s.flow inc with
       | some f => ({ s with flow := f }, .ok)
       | none => (closeReset s, .rst 3)
-  | .badWinUpd => ((if s.live then closeReset s else s), .rst 1)
+  | .badWinUpd => ((if s.live then closeReset s else s), .rst 1)   -- resetStream(PROTOCOL_ERROR): also a malformed header block, a stream timeout
   | .wrote =>
     match s.fly with
     | .none => (s, .idle)
@@ -149,7 +150,9 @@ def sstep (s : SS) : SEv → SS × Out
       else (s, .panic .closeClosed)                          -- closeStream on a stream already closed
 
 /-! ### the connection -/
-inductive Kind | ok | cl (n : Nat) | bad | tr
+/-- `inv`: header block rejected by the frame reader (stream error); `conn L`: a connection-specific request header —
+    the request is answered by the 400 handler with a body of `L` bytes -/
+inductive Kind | ok | cl (n : Nat) | bad | tr | inv | conn (L : Nat)
   deriving Repr
 
 inductive Ev
@@ -167,6 +170,8 @@ inductive Ev
   | C (id : Nat)                          -- CONTINUATION following nothing
   | X (id : Nat)                          -- HEADERS without END_HEADERS followed by DATA
   | K (id : Nat) (es : Bool)              -- valid request as HEADERS + CONTINUATION
+  | Z (id : Nat)                          -- PUSH_PROMISE from the client
+  | T (id : Nat)                          -- a stream timeout fires (timeoutEventCh): resetStream(PROTOCOL_ERROR)
   | A                                     -- GOAWAY from the client
   | Q                                     -- graceful shutdown (closeNotifyCh): goAway(NO_ERROR)
   deriving Repr
@@ -204,7 +209,7 @@ def settingsErr (c : Conn) (framer : Bool) : Conn × Out :=
   if c.goAway.isSome then (r.1, .sfail) else r
 
 def Ev.isClient : Ev → Bool
-  | .F _ => false | .P _ => false | .B _ _ => false | .W => false | .Q => false | _ => true
+  | .F _ => false | .P _ => false | .B _ _ => false | .W => false | .Q => false | .T _ => false | _ => true
 
 def headersEv (c : Conn) (id : Nat) (es : Bool) (k : Kind) : Conn × Out :=
   if id == 0 then connErr c 1 true
@@ -215,7 +220,7 @@ def headersEv (c : Conn) (id : Nat) (es : Bool) (k : Kind) : Conn × Out :=
   else if id ≤ c.maxId then connErr c 1 false
   else
     let c := { c with maxId := id }
-    let ok := match k with | .ok => true | .cl _ => true | _ => false
+    let ok := match k with | .ok => true | .cl _ => true | .conn _ => true | _ => false
     let d := match k with | .cl n => some n | _ => none
     c.upd id (sstep (c.streams id) (.hnew es ok (c.cur + 1 > c.adv) d c.iws))
 
@@ -243,8 +248,25 @@ def schedStopped (c : Conn) : Bool :=
 def othersQueued (c : Conn) (id : Nat) : Bool :=
   c.ids.any fun j => j != id && !(c.streams j).q.isEmpty
 
+def anyQueued (c : Conn) : Bool := c.ids.any fun j => !(c.streams j).q.isEmpty
+
+/-- HEADERS with its kinds: `inv` is a stream error of the frame reader (no parity / order / GOAWAY check applies);
+    `conn L` is refused by the harness (`busy`, nothing sent) unless the scheduler is idle, and a request that gets
+    through is answered at once by the 400 handler: HEADERS(400) + DATA(L, END_STREAM) are queued -/
+def headersKindEv (c : Conn) (id : Nat) (es : Bool) (k : Kind) : Conn × Out :=
+  match k with
+  | .inv => if id == 0 then connErr c 1 true else c.upd id (sstep (c.streams id) .badWinUpd)
+  | .conn L =>
+    if c.held.isSome || anyQueued c then (c, .busy)
+    else
+      let r := headersEv c id es k
+      if r.2 == .ok && c.goAway.isNone then
+        r.1.upd id (sstep (r.1.streams id) (.handlerFrames [.hdr false, .data L true]))
+      else r
+  | _ => headersEv c id es k
+
 def cstepCore (c : Conn) : Ev → Conn × Out
-  | .H id es k => headersEv c id es k
+  | .H id es k => headersKindEv c id es k
   | .K id es => headersEv c id es .ok
   | .D id n es pad =>
     if id == 0 then connErr c 1 true
@@ -293,6 +315,8 @@ def cstepCore (c : Conn) : Ev → Conn × Out
   | .Y id _ _ => if id == 0 then connErr c 1 true else (c, .ok)
   | .C _ => connErr c 1 true
   | .X _ => connErr c 1 true
+  | .Z id => if id == 0 then connErr c 1 true else connErr c 1 false   -- "client should not send PushPromise"
+  | .T id => c.upd id (sstep (c.streams id) .badWinUpd)
   | .A => (c, .ok)                                              -- a client GOAWAY is ignored
   | .Q => if c.goAway.isSome then (c, .ok) else ({ c with goAway := some 0 }, .ga 0)
 
@@ -362,9 +386,14 @@ def handlerOutcome (c : Conn) (id : Nat) : Out :=
   else if !(c.streams id).q.isEmpty then (if schedStopped c then .queued else .blocked)
   else .skip
 
+def Ev.isConnReq : Ev → Bool
+  | .H _ _ (.conn _) => true
+  | _ => false
+
 /-- one serve-loop iteration: the event itself, then the write scheduler -/
 def cstep (c : Conn) (e : Ev) : Conn × Out :=
-  if e.isClient && c.gone then (c, .gone)
+  if e.isConnReq && (c.held.isSome || anyQueued c) then (c, .busy)
+  else if e.isClient && c.gone then (c, .gone)
   else
     let r := cstepCore c e
     if stops e r.2 then r
@@ -374,9 +403,10 @@ def cstep (c : Conn) (e : Ev) : Conn × Out :=
       | some site => (d.1, .panic site)
       | none =>
         match e, r.2 with
-        | .F id, .ok => (d.1, handlerOutcome d.1 id)
-        | .P id, .ok => (d.1, handlerOutcome d.1 id)
-        | .B id _, .ok => (d.1, handlerOutcome d.1 id)
+        | .F id, .pending => (d.1, handlerOutcome d.1 id)
+        | .P id, .pending => (d.1, handlerOutcome d.1 id)
+        | .B id _, .pending => (d.1, handlerOutcome d.1 id)
+        | .H id _ _, .pending => (d.1, handlerOutcome d.1 id)
         | _, _ => (d.1, r.2)
 
 def runEvs : Conn → List Ev → List Out → Conn × List Out
